@@ -595,7 +595,11 @@ class NAryFunctionRelation(AbstractBaseRelation, SimpleRepr):
             else:
                 slice_f = functools.partial(self._f, **slicing_dict)
 
-            return NAryFunctionRelation(slice_f, remaining_vars, name=self.name)
+            # Keep the by-name calling convention of the function, if any:
+            # otherwise the remaining variables would be mapped by position.
+            return NAryFunctionRelation(
+                slice_f, remaining_vars, name=self.name, f_kwargs=self._f_kwargs
+            )
 
     def set_value_for_assignment(self, assignment, relation_value):
         raise NotImplementedError(
